@@ -15,6 +15,7 @@ mod eng_parse;
 mod eng_convert;
 mod eng_outstation;
 mod mon_outstation;
+mod mon_outstation_db;
 mod gen_outstation;
 
 use std::io::Write;
@@ -39,6 +40,7 @@ fn main() {
                 "ffi" => eng_ffi::gen(thorough, seed, &mut out),
                 "convert" => eng_convert::gen(thorough, seed, &mut out),
                 "outstation" => gen_outstation::gen(thorough, seed, &mut out, gen_outstation::GenCfg { with_db: false }),
+                "outstationdb" => gen_outstation::gen(thorough, seed, &mut out, gen_outstation::GenCfg { with_db: true }),
                 _ => {
                     eprintln!("unknown engine {engine}");
                     std::process::exit(2)
@@ -57,7 +59,7 @@ fn main() {
                 "parse" => eng_parse::run(&ops, &mut out, &mut mon),
                 "ffi" => eng_ffi::run(&ops, &mut out, &mut mon),
                 "convert" => eng_convert::run(&ops, &mut out, &mut mon),
-                "outstation" => eng_outstation::run(&ops, &mut out, &mut mon),
+                "outstation" | "outstationdb" => eng_outstation::run(&ops, &mut out, &mut mon),
                 _ => {
                     eprintln!("unknown engine {engine}");
                     std::process::exit(2)
